@@ -29,6 +29,7 @@ type Engine struct {
 	specFuncs  map[string]specFn
 	specConsts map[string]string
 	prelude    string
+	preludeModel string
 	strIDs     map[string]int
 	typeIDs    map[string]int
 	funcs      map[string]*ssa.Function
@@ -121,6 +122,24 @@ func (e *Engine) loadSpec(dir string) error {
 		}
 	}
 	e.prelude = sb.String()
+	// model-search variant: the trigger-friendly uninterpreted functions (proof-only sections) are
+	// replaced by their definitions (;@model lines). Every model of this variant satisfies the
+	// proof variant's axioms, so "sat" here is a genuine counterexample to the obligation.
+	var mb strings.Builder
+	skip := false
+	for _, line := range strings.Split(e.prelude, "\n") {
+		switch {
+		case strings.HasPrefix(line, ";@proof-only"):
+			skip = true
+		case strings.HasPrefix(line, ";@end"):
+			skip = false
+		case strings.HasPrefix(line, ";@model "):
+			mb.WriteString(line[len(";@model "):] + "\n")
+		case !skip:
+			mb.WriteString(line + "\n")
+		}
+	}
+	e.preludeModel = mb.String()
 	return nil
 }
 
@@ -284,7 +303,13 @@ func (vc *VC) finish() {
 			memChanged = true
 		}
 	}
-	if memChanged && len(vc.retR) > 1 {
+	declaresEffects := false
+	for _, md := range vc.con.Mods {
+		if md.Loop == 0 {
+			declaresEffects = true
+		}
+	}
+	if memChanged && declaresEffects && len(vc.retR) > 1 {
 		order := make([]int, len(vc.retR))
 		for i := range order {
 			order[i] = i
